@@ -19,14 +19,51 @@ RULES = ["expr", "conditionalor", "conditionaland", "relation", "addition", "mul
          "function_eval", "method_eval", "literal", "member_object"]
 
 
+_SCOPES: Dict[str, Any] = {}     # where extracted helpers are looked up: class body of the rule, module body
+
+
+def _callee(call: ast.Call):
+    """the FunctionDef of a private helper (`self._name(...)`, `cls._name(...)`, module-level `_name(...)`) this call
+    applies, or None.  Rewrites that extract a block of a rule into such a helper are followed one level deep, so the
+    extractor keeps seeing the handler / the error check that moved (and a changed one still shows)."""
+    f = call.func
+    name = None
+    if isinstance(f, ast.Attribute) and isinstance(f.value, ast.Name) and f.value.id in ("self", "cls") and f.attr.startswith("_"):
+        name, where = f.attr, "cls"
+    elif isinstance(f, ast.Name) and f.id.startswith("_"):
+        name, where = f.id, "mod"
+    if name is None or name.startswith("__"):
+        return None
+    for n in _SCOPES.get(where, []):
+        if isinstance(n, ast.FunctionDef) and n.name == name:
+            return n
+    return None
+
+
+def _with_helpers(node: ast.AST) -> List[ast.AST]:
+    """the node plus the bodies of the private helpers it calls (one level)"""
+    out = [node]
+    for n in ast.walk(node):
+        if isinstance(n, ast.Call):
+            d = _callee(n)
+            if d is not None and d not in out and d is not node:
+                out.append(d)
+    return out
+
+
+def _source(node: ast.AST) -> str:
+    return "\n".join(ast.unparse(n) for n in _with_helpers(node))
+
+
 def _handlers(node: ast.AST) -> List[str]:
     hs: List[str] = []
-    for n in ast.walk(node):
-        if isinstance(n, ast.Try):
-            for h in n.handlers:
-                for c in exc_names(h.type):
-                    if c not in hs:
-                        hs.append(c)
+    for part in _with_helpers(node):
+        for n in ast.walk(part):
+            if isinstance(n, ast.Try):
+                for h in n.handlers:
+                    for c in exc_names(h.type):
+                        if c not in hs:
+                            hs.append(c)
     return hs
 
 
@@ -56,6 +93,7 @@ def extract_tables() -> Dict[str, Any]:
     P2 = find_class(ev, "Phase2Transpiler")
     T = find_class(ev, "Transpiler")
     out: Dict[str, Any] = {"handlers": {}}
+    _SCOPES["cls"], _SCOPES["mod"] = E.body, ev.body
     for r in RULES:
         out["handlers"][r] = _handlers(find_func(E.body, r))
     prim = find_func(E.body, "primary")
@@ -68,38 +106,75 @@ def extract_tables() -> Dict[str, Any]:
     out["handlers"]["macro_plain"] = _handlers(find_func(E.body, "build_macro_eval"))
     # reducers of all/exists in the interpreter
     for m, op in (("all", "logical_and"), ("exists", "logical_or")):
-        src = ast.unparse(_branch(mda, m))
+        src = _source(_branch(mda, m))
         out[f"interp_{m}_reducer_catches"] = ["TypeError"] if f"eval_error('no such overload', TypeError)(celpy.celtypes.{op})" in src else []
     out["macros_interp"] = _set_literal_with(mda, "exists_one")
     out["macros_compiled"] = _set_literal_with(find_func(P1.body, "member_dot_arg"), "exists_one")
     # result()
+    # the classes result() CONVERTS: handlers of the try around the call of the lambda that do not re-raise
+    # (one `except (A, B)`, several `except` clauses, a message chain moved into a helper: same set)
     res = find_func(ev.body, "result")
-    tries = [s for s in res.body if isinstance(s, ast.Try)]
-    if len(tries) != 1 or len(tries[0].handlers) != 1:
-        raise TranslationError("result(): expected exactly one try/except")
-    out["result"] = exc_names(tries[0].handlers[0].type)
+    tries = [s for s in ast.walk(res) if isinstance(s, ast.Try)]
+    if len(tries) != 1:
+        raise TranslationError("result(): expected exactly one try statement")
+    conv: List[str] = []
+    for h in tries[0].handlers:
+        if any(isinstance(x, ast.Raise) for x in ast.walk(h)):
+            continue
+        for c in exc_names(h.type):
+            if c not in conv:
+                conv.append(c)
+    out["result"] = conv
     # Transpiler.evaluate: blanket handler
     out["evaluate_blanket"] = _handlers(find_func(T.body, "evaluate"))
     # templates: number of operands wrapped in result()
     wrap = {}
+    _SCOPES["cls"] = P1.body
     for r in ("expr", "conditionalor", "conditionaland", "ident_arg", "member_dot_arg"):
-        src = ast.unparse(find_func(P1.body, r))
-        wrap[r] = len(re.findall(r"celpy\.evaluation\.result\(activation, ex_\$\{n\}_", src))
+        src = _source(find_func(P1.body, r))
+        # `${n}` of a string.Template or `{n}` of an f-string / str.format
+        wrap[r] = len(re.findall(r"celpy\.evaluation\.result\(activation, ex_\$?\{n\}_", src))
     out["template_result_operands"] = wrap
     out["top_level_result"] = "CEL = celpy.evaluation.result(base_activation" in ast.unparse(find_func(P2.body, "statements"))
     # macro helpers
     helpers = {}
+    _SCOPES["cls"] = []
     for m in ("map", "filter", "exists_one", "exists", "all"):
         f = find_func(ev.body, "macro_" + m)
-        src = ast.unparse(f)
-        ret = [n for n in ast.walk(f) if isinstance(n, ast.Return)]
-        helpers[m] = {"body_in_result": bool(re.search(r"\bresult\(\w+, \w+\) for \w+ in", src)),
+        parts = _with_helpers(f)
+        src = _source(f)
+        if len(f.args.args) < 3:
+            raise TranslationError(f"macro_{m}: expected (activation, bind_variable, cel_expr, cel_gen)")
+        body_param = f.args.args[2].arg
+        calls = [n for part in parts for n in ast.walk(part) if isinstance(n, ast.Call)]
+        # the body lambda is applied through result() …
+        via_result = [c for c in calls if ast.unparse(c.func) in ("result", "celpy.evaluation.result") and len(c.args) == 2
+                      and isinstance(c.args[1], ast.Name) and c.args[1].id == body_param]
+        # … or directly (called, or handed to map()/filter()/another callable)
+        direct = [c for c in calls if (isinstance(c.func, ast.Name) and c.func.id == body_param)
+                  or (c not in via_result and any(isinstance(a, ast.Name) and a.id == body_param for a in c.args)
+                      and _callee(c) is None)]
+        if via_result and direct:
+            raise TranslationError(f"macro_{m}: the body is evaluated both inside and outside result()")
+        if not via_result and not direct:
+            raise TranslationError(f"macro_{m}: no evaluation of the body found")
+        loops = [n for part in parts for n in ast.walk(part) if isinstance(n, (ast.For, ast.While))]
+        early = any(isinstance(x, (ast.Break, ast.Return)) for lp in loops for x in ast.walk(lp))
+        lazy = any(isinstance(x, (ast.Yield, ast.YieldFrom)) for part in parts for x in ast.walk(part)) \
+            or any(ast.unparse(c.func) in ("any", "all", "next", "itertools.takewhile", "itertools.islice", "takewhile", "islice") for c in calls)
+        helpers[m] = {"body_in_result": bool(via_result),
                       "reducer_catches_TypeError": "eval_error('no such overload', TypeError)" in src,
-                      "coerces_BoolType": any(isinstance(r.value, ast.Call) and ast.unparse(r.value.func) == "celpy.celtypes.BoolType" for r in ret)}
+                      "coerces_BoolType": any(ast.unparse(c.func) == "celpy.celtypes.BoolType" and c.args
+                                              and not isinstance(c.args[0], ast.Constant) for c in calls),
+                      # a loop that can stop before the source is exhausted (break / return inside it, any()/all()/next())
+                      "may_stop_early": bool(early or lazy)}
     out["macro_helpers"] = helpers
     # has(): interpreter and template
-    out["has_template_pybool"] = "not isinstance(celpy.evaluation.result(activation, ex_${n}_h), CELEvalError)" in ast.unparse(find_func(P1.body, "ident_arg"))
-    out["has_interp_booltype"] = bool(re.search(r"celpy\.celtypes\.BoolType\(not isinstance\(\w+\[0\], CELEvalError\)\)", ast.unparse(find_func(E.body, "macro_has_eval"))))
+    _SCOPES["cls"] = P1.body
+    out["has_template_pybool"] = bool(re.search(r"not isinstance\(celpy\.evaluation\.result\(activation, ex_\$?\{n\}_h\), CELEvalError\)",
+                                                _source(find_func(P1.body, "ident_arg"))))
+    _SCOPES["cls"] = E.body
+    out["has_interp_booltype"] = bool(re.search(r"celpy\.celtypes\.BoolType\(not isinstance\(\w+(\[0\])?, CELEvalError\)\)", _source(find_func(E.body, "macro_has_eval"))))
     # base_functions keys
     bf = None
     for n in ev.body:
@@ -114,10 +189,10 @@ def extract_tables() -> Dict[str, Any]:
         raise TranslationError("base_functions: non-constant key")
     # error checks of function_eval / method_eval / exprlist / mapinits / member_dot / macro receiver
     def checks_error(fn: ast.FunctionDef) -> bool:
-        return "isinstance" in ast.unparse(fn) and "CELEvalError" in ast.unparse(fn)
+        return bool(re.search(r"isinstance\([^()]*(\([^()]*\))?[^()]*,\s*CELEvalError\)", _source(fn)))
     out["arg_error_check"] = {r: checks_error(find_func(E.body, r)) for r in ("function_eval", "method_eval", "exprlist", "mapinits", "member_dot")}
-    out["macro_receiver_error_check"] = bool(re.search(r"if isinstance\(\w+, CELEvalError\):\s*return \w+", ast.unparse(mda)))
-    out["macro_receiver_iterable_check"] = bool(re.search(r"not isinstance\(\w+,\s*(typing\.)?(collections\.abc\.)?Iterable\)", ast.unparse(mda)))
+    out["macro_receiver_error_check"] = bool(re.search(r"if isinstance\(\w+, CELEvalError\):\s*return \w+", _source(mda)))
+    out["macro_receiver_iterable_check"] = bool(re.search(r"not isinstance\(\w+,\s*(typing\.)?(collections\.abc\.)?Iterable\)", _source(mda)))
     return out
 
 
